@@ -53,7 +53,7 @@ class Case:
 
     @property
     def es(self):
-        return {'tr': 40, 'unit': 0, 'zd': 0, 'w24': 24}[self.elem]
+        return {'tr': 40, 'unit': 0, 'zd': 0, 'w24': 24, 'b1': 1, 'pn': 8}[self.elem]
 
     def text(self):
         lines = [f"H {self.id} {self.es} {self.debug} {self.elem} {self.threads} {self.delay}"]
